@@ -8,6 +8,7 @@ mod common;
 use common::Emitter;
 mod c01p;
 mod c03;
+mod c13;
 mod c15;
 mod compilep;
 mod frontp;
@@ -95,6 +96,7 @@ fn main() {
         "C11" => wirep::run_c11(&opts, &mut Emitter::new(&mut out, opts.only)),
         "C11-garbage" => wirep::run_garbage_child(&opts),
         "C01" => c01p::run(&opts, &mut Emitter::new(&mut out, opts.only)),
+        "C13" => c13::run(&opts, &mut Emitter::new(&mut out, opts.only)),
         "C12" | "C19" => frontp::run(&opts, &mut Emitter::new(&mut out, opts.only)),
         "C16" => jsonp::run(&opts, &mut Emitter::new(&mut out, opts.only)),
         "C17" => wirep::run_c17(&opts, &mut Emitter::new(&mut out, opts.only)),
